@@ -124,6 +124,15 @@ Section Spec.
       Ok (o :: tl)
     end.
 
+  (* the rearrangements of the input that the property quantifies over: generated by exchanging two
+     neighbouring entries that do not belong to the same field (unknown fields move freely) *)
+  Inductive reorder (specs : list fspec) : list (key * outcome V) -> list (key * outcome V) -> Prop :=
+  | ro_refl : forall l, reorder specs l l
+  | ro_swap : forall l1 k1 r1 k2 r2 l2,
+      match_field V specs k1 <> match_field V specs k2 \/ match_field V specs k1 = None ->
+      reorder specs (l1 ++ (k1, r1) :: (k2, r2) :: l2) (l1 ++ (k2, r2) :: (k1, r1) :: l2)
+  | ro_trans : forall a b c, reorder specs a b -> reorder specs b c -> reorder specs a c.
+
   Definition spec_visit (specs : list fspec) (kvs : list (key * outcome V)) : outcome (list (out V)) :=
     if dup_clash specs kvs then Err E_DUP else spec_fields specs specs 0 kvs.
 End Spec.
